@@ -648,6 +648,17 @@ def suite_C11():
         k += 1
     cases.append(('rf%d' % k, 'reverse(repeat(7))[3]', '7', dict(stream='repeat(7)', what='reversal of the constant stream')))
     k += 1
+    # stream(seq) and ranges at every position reached by dropping a prefix: every slice is relative to what is left (C11: "at every position")
+    for n in range(0, 6):
+        py = list(range(10, 10 + n))
+        for base, bpy in [('stream([%s])' % ', '.join(map(str, py)), py), ('(1 to %d by 2)' % (2 * n), list(range(1, 2 * n + 1, 2)))]:
+            for c in range(0, len(bpy) + 1):
+                rest = bpy[c:]
+                for how, cexpr in [('drop', '(%s drop %d)' % (base, c)), ('slice', '(%s)[%d:]' % (base, c))]:
+                    for lo, hi in itertools.product([None] + list(range(-len(bpy) - 2, len(bpy) + 3)), repeat=2):
+                        cases.append(('cz%d' % k, 'list(%s[%s:%s])' % (cexpr, '' if lo is None else lit(lo), '' if hi is None else lit(hi)), '[%s]' % ', '.join(map(str, rest[lo:hi])),
+                                      dict(stream=base, consumed=c, how=how, lo=lo, hi=hi, what='slice of a consumed stream')))
+                        k += 1
     return '', cases
 
 
